@@ -141,9 +141,9 @@ type run struct {
 	lat   [][]time.Duration
 
 	mu       sync.Mutex
-	names    map[string]int        // peer name -> index
-	valIdx   map[[32]byte]int      // value hash -> value number of the specification
-	crashed  map[int]bool          // nodes whose crash point was reached
+	names    map[string]int   // peer name -> index
+	valIdx   map[[32]byte]int // value hash -> value number of the specification
+	crashed  map[int]bool     // nodes whose crash point was reached
 	crashes  map[int]crashRule
 	bidx     map[int]map[string]int // per sender: signature of the main message -> broadcast index
 	drops    []dropRule
